@@ -50,12 +50,11 @@ def run_script(udp, script, reqs, user_close=None, tcp_lost=None, seed=0, disc_d
                 conn = TCPDeviceManagementConnection(GW[0], GW[1], indication_callback=ind_cb)
 
             def deliver(body, delay=0.0, log=None):
-                raw = KNXIPFrame.init_from_body(body).to_knx()
-
                 def go():
                     tr = conn.transport.transport
                     if tr is None or tr.is_closing():
                         return
+                    raw = KNXIPFrame.init_from_body(body() if callable(body) else body).to_knx()
                     if log is not None:
                         ev.append(log() if callable(log) else log)
                     if udp:
@@ -88,9 +87,12 @@ def run_script(udp, script, reqs, user_close=None, tcp_lost=None, seed=0, disc_d
                     # the server numbers its frames when they leave, so that the client always sees the expected counter
                     return {"ev": "rx_cemi", "type": kind, "ot": int(OT), "inst": inst, "pid": pid, "val": val, "err": 1 if err else 0}
 
-                s = st["srvseq"]
-                st["srvseq"] = (s + 1) % 256
-                deliver(DeviceConfigurationRequest(communication_channel_id=5, sequence_counter=s, raw_cemi=raw), delay, log)
+                def body():
+                    s = st["srvseq"]
+                    st["srvseq"] = (s + 1) % 256
+                    return DeviceConfigurationRequest(communication_channel_id=5, sequence_counter=s, raw_cemi=raw)
+
+                deliver(body, delay, log)
 
             def gw(tr, data, addr):
                 f, _ = KNXIPFrame.from_knx(data)
@@ -213,7 +215,8 @@ def plans(ck):
             if rnd.random() < (0.5 if ck.tier == "quick" else 1.0):
                 out.append(dict(udp=udp, script=list(s), reqs=[(0.0, 1, "read", 51), (0.0, 2, "read", 52), (0.5, 3, "write", 51)]))
         # user disconnect / connection loss at chosen instants of a slow exchange
-        for a, t in itertools.product(((), ("ack",), ("ack", "late"), ("ack", "ans")), (0.0, 0.001, 3.0, 9.999, 10.0, 10.001, 25.0, 39.0)):
+        for a, t in itertools.product(((), ("ack",), ("ack", "late"), ("ack", "ans"), ("other",), ("ans",), ("ind",), ("wrongtype",), ("ack", "other"), ("ack", "ind")),
+                                      (0.0, 0.001, 3.0, 5.0, 9.999, 10.0, 10.001, 15.0, 25.0, 39.0)):
             out.append(dict(udp=udp, script=[a, a], reqs=seq_reqs(2, 0.0), user_close=t))
             if not udp:
                 out.append(dict(udp=udp, script=[a, a], reqs=seq_reqs(2, 0.0), tcp_lost=t))
